@@ -108,6 +108,11 @@ def gen(ctx):
         attrs = b"".join(tlv(0x30, bytes.fromhex("06092a864886f70d01090e") + tlv(0x31, tlv(0x30, ext_der(r)))) for _ in range(r.range(0, 2)))
         ver = 0 if r.chance(5, 6) else r.choice([1, 2, -1, 127, 128, 256])
         add("req %d %s %d %s" % (ver, hexs(subject), r.range(1, 4), hexs(attrs)), "req:ver%s:attrs%d" % ("0" if ver == 0 else "other", bool(attrs)))
+    # the subject key object (public part only) and the signing key-pair object are separate arguments of every issuing call:
+    # each pairing of the two (certificates and CRLs vary their (key, signer) pair in the cert / crl classes already)
+    for k in range(1, 5):
+        for sk in range(1, 5):
+            add("reqx 0 %s %d %s %d" % (hexs(name_der(r)), k, "-", sk), "req:subject-key-vs-signing-key:%s" % ("same" if k == sk else "different"))
     # --- CRLs
     def entries(n, with_ext=False):
         es = []
@@ -333,7 +338,7 @@ def gen(ctx):
         add("crlchk 1 %d %d %d crlnum.0" % (this_, next_, now_), "crlchk:window:" + nm)
     # RevokedCertificate with entry extensions (x509_revoked_cert_to_der_ex / from_der_ex / x509_cert_revoke_to_der)
     for serial in (b"\x01", b"\x00\x80", bytes([0x7f] * 20), b"\x00\x00\x05"):
-        for reason in (-1, 1, 9):
+        for reason in (-1, 0, 1, 9):
             for inv in (-1, 1600000000):
                 for iss in ("-", "310b3009060355040a0c024341"):
                     for via in (0, 1):
@@ -366,6 +371,12 @@ def gen(ctx):
         add("payload validity_add_days %d" % days, "payload:validity_add_days:%s" % ("ok" if 1 <= days <= 3653 else "out-of-range"))
     for kind in ("cert", "certs", "req", "bysubject", "newcert", "newcerts", "newreq", "newreqfp"):
         add("pemrt %s" % kind, "pemrt:" + kind)
+    # octets after the signature value (one DER SEQUENCE { r, s }) inside the BIT STRING of every signed object: 0 (control), 1, 2, a
+    # second copy's worth, with zero / non-zero / SEQUENCE-tag filling
+    for kind in ("cert", "req", "crl"):
+        for n in (0, 1, 2, 8, 72):
+            for fill in ((0,) if n == 0 else (0, 0x30, 0xff)):
+                add("sigtrail %s %d %d" % (kind, n, fill), "sigtrail:%s:%s" % (kind, "control" if n == 0 else "octets-after-signature"))
     # text renderers on an object that carries every extension the builders compose; identifier <-> name tables
     for kind in ("cert", "crl", "req"):
         add("printall %s" % kind, "printall:" + kind)
@@ -466,10 +477,12 @@ def builder_order_cases(ctx, exe, variant):
         allb = ["%s.%d" % (n, r.below(2)) for n in avail]
         r.shuffle(allb)
         cases.append(("extlist %s %s %s" % (kind, ",".join(allb), "".join(solo[(kind, t)] for t in allb)), "extlist:%s:all" % kind))
-    for reason in (-1, 0, 1, 6, 10):
+    # every enumerated reason code (0 = unspecified is a value, -1 is "absent"), alone and next to the other two entry extensions
+    for reason in (-1, 0, 1, 2, 3, 4, 5, 6, 7, 8, 9, 10, 11):
         for date in (-1, 1600000000, 2600000000):
             for iss in ("-", "310b3009060355040a0c024341"):
-                cases.append(("entryexts %d %d %s" % (reason, date, iss), "entryexts:reason%s:date%s:issuer%s" % ("absent" if reason < 0 else "set", "absent" if date < 0 else "set", "absent" if iss == "-" else "set")))
+                rc = "absent" if reason < 0 else ("unspecified(0)" if reason == 0 else ("out-of-range" if reason > 10 else "set"))
+                cases.append(("entryexts %d %d %s" % (reason, date, iss), "entryexts:reason-%s:date%s:issuer%s" % (rc, "absent" if date < 0 else "set", "absent" if iss == "-" else "set")))
     return cases
 
 
